@@ -275,19 +275,7 @@ def cfg_script(cfg):
     return s
 
 
-def one_case(ctx, exe, inp, users, cfg, db=DB):
-    script = ["new", f"load {hx(db)}"] + cfg_script(cfg) + [f"run {hx(inp)}", "views"]
-    rc, out, err = run_script(ctx, exe, script)
-    if rc != 0:
-        return {"crash": rc, "stderr": err[-800:], "script": script}
-    recs = parse_output(out)
-    runrec = [r for r in recs if r["op"] == "run"]
-    vrec = [r for r in recs if r["op"] == "views"]
-    if not runrec or not vrec:
-        return {"crash": "no-result", "stdout": out[-5:], "script": script}
-    events = runrec[0]["events"]
-    views = vrec[0]["views"]
-    ret = int(runrec[0]["args"][0])
+def analyse_call(ctx, cfg, events, views, ret):
     pv = model_views(ctx, cfg, events)
     if pv.get("bad", ["0"])[0] != "0":
         raise RuntimeError("pmodel route could not parse %s event lines" % pv["bad"][0])
@@ -302,8 +290,38 @@ def one_case(ctx, exe, inp, users, cfg, db=DB):
         elif p[1] == "popen" and int(p[3]) in seen_text:
             redefined.add(int(p[3]))
     nrows = sum(int(dict(x.split("=") for x in v)["rows"]) for v in views.get("sel", {}).values())
-    return {"diffs": diffs, "oracle": bad, "ret": ret, "events": len(events), "rows": nrows, "script": script,
-            "errcount": int(pv["errcount"][0]), "redefined": sorted(redefined)}
+    nerr_events = sum(1 for e in events if e.startswith("EV err "))
+    # C08 relation: return value non-zero iff an ERROR event was recorded in this call
+    if (ret != 0) != (nerr_events > 0):
+        bad.append(("retval-vs-errors", f"return value {ret} with {nerr_events} ERROR events"))
+    return {"diffs": diffs, "oracle": bad, "ret": ret, "events": len(events), "rows": nrows,
+            "errcount": int(pv["errcount"][0]), "redefined": sorted(redefined), "views": views}
+
+
+def run_calls(ctx, exe, calls, db=DB, prelude=()):
+    """calls: list of (cfg, input_text). One instance, one database load, then for each call: switches, run, views.
+    Returns list of per-call analysis dicts (or a single {"crash":...})."""
+    script = ["new", f"load {hx(db)}"] + list(prelude)
+    for cfg, inp in calls:
+        script += cfg_script(cfg) + [f"run {hx(inp)}", "views"]
+    rc, out, err = run_script(ctx, exe, script)
+    if rc != 0:
+        return [{"crash": rc, "stderr": err[-800:], "script": script}]
+    recs = parse_output(out)
+    runrec = [r for r in recs if r["op"] == "run"]
+    vrec = [r for r in recs if r["op"] == "views"]
+    if len(runrec) != len(calls) or len(vrec) != len(calls):
+        return [{"crash": "no-result", "stdout": out[-5:], "script": script}]
+    res = []
+    for (cfg, inp), rr, vr in zip(calls, runrec, vrec):
+        r = analyse_call(ctx, cfg, rr["events"], vr["views"], int(rr["args"][0]))
+        r["script"] = script
+        res.append(r)
+    return res
+
+
+def one_case(ctx, exe, inp, users, cfg, db=DB):
+    return run_calls(ctx, exe, [(cfg, inp)], db=db)[0]
 
 
 def run_selout_traces(ctx, per_property="C05"):
